@@ -78,6 +78,16 @@ fn fresh_backend(path: &Path) -> Result<(Backend, Schema), String> {
     Ok((be, schema))
 }
 
+/// open a backend on an existing database file (as a server start does: the replication metadata
+/// is reloaded from the file and the entries) and return its uncompressed backup
+pub fn reopen_backup(path: &Path) -> Result<Vec<u8>, String> {
+    let (be, _schema) = fresh_backend(path)?;
+    let mut r = be.read().map_err(|e| format!("be read: {e:?}"))?;
+    let mut buf = Vec::new();
+    r.backup(&mut buf, BackupCompression::NoCompression).map_err(|e| format!("backup of the reopened database: {e:?}"))?;
+    Ok(buf)
+}
+
 /// restore into a fresh database file the way the server's restore command does (restore,
 /// commit, reindex); returns the uncompressed backup of the restored database. The backend is
 /// closed afterwards: the restored server is started on the file like any server start.
@@ -202,6 +212,20 @@ pub fn round_trip_check(rt: &tokio::runtime::Runtime, orig: &Original, init_at: 
                 out.push((format!("restored_database_differs:{}", parts.join("+")), format!("a backup ({cname}) restored into a fresh database and backed up again differs in {parts:?}{detail}")));
             }
             Err(e) => out.push((format!("restored_backup_unreadable:{cname}"), e)),
+        }
+        // restore the same backup once more, now OVER the non-empty database (a roll-back on the
+        // same server), close it, and compare what a backend that opens the file finds
+        if comp == BackupCompression::NoCompression {
+            match restore_fresh(&path, bytes, comp).and_then(|_| reopen_backup(&path)).and_then(|b| normalise(&b)) {
+                Ok(got) if got == want => {}
+                Ok(got) => {
+                    let (a, b): (serde_json::Value, serde_json::Value) = (serde_json::from_str(&want).unwrap_or_default(), serde_json::from_str(&got).unwrap_or_default());
+                    let parts: Vec<&str> = ["version", "db_s_uuid", "db_d_uuid", "db_ts_max", "keyhandles", "repl_meta", "entries"].into_iter().filter(|k| a.get(*k) != b.get(*k)).collect();
+                    let n = |v: &serde_json::Value| v.pointer("/repl_meta/V1/ruv").and_then(|x| x.as_array()).map(|x| x.len()).unwrap_or(0);
+                    out.push((format!("restore_over_existing_database_differs:{}", parts.join("+")), format!("the backup restored over a non-empty database (the same one) and re-opened differs from the original in {parts:?} (replication metadata: {} change ids in the original, {} after)", n(&a), n(&b))));
+                }
+                Err(e) => out.push(("restore_over_existing_database_failed".into(), e)),
+            }
         }
         // start a server on the restored database
         let qs2 = match srv::new_qs(Some(&path), 1, DOMAIN_TGT_LEVEL, init_at, rt) {
